@@ -10,6 +10,7 @@
   and the run aborts.
 -/
 import FordModel.Nesting
+import FordModel.Reader
 namespace Ford
 
 /-- the top-level units of a file that `_fortran_file` registers -/
@@ -95,6 +96,14 @@ inductive Src
   | readerError
   | stmts (ss : List Stmt)
   deriving Repr, DecidableEq
+
+/-- a decodable file: the reader model of C02 (`readAll`, total by structural recursion)
+    either raises or delivers the statements, which `classify` (the recognisers; on the
+    implementation side) turns into statement kinds -/
+def srcOfLines (m : Marks) (classify : List Str → List Stmt) (lines : List Str) : Src :=
+  match readAll m lines with
+  | .error _ => .readerError
+  | .ok items => .stmts (classify items)
 
 def srcOutcome (cfg : Cfg) : Src → Outcome
   | .undecodable => .skipped .decode []
